@@ -227,6 +227,52 @@ def judge_facets(ver, base, f1, f2, st):
     return out
 
 
+# ------------------------------------------------------------------------------------ (2b) XSD 1.1 open content
+
+def _oc(mode):
+    """None = no openContent element; 'none' = mode="none"; else interleave / suffix with a ##other lax wildcard."""
+    if mode is None:
+        return ''
+    if mode == 'none':
+        return '<xs:openContent mode="none"/>'
+    return '<xs:openContent mode="%s"><xs:any namespace="##other" processContents="lax"/></xs:openContent>' % mode
+
+
+def judge_open_content(default, boc, doc_, b, d, st):
+    """XSD 1.1: base / derived with explicit, absent or schema-default open content.  Purely metamorphic: when the
+    schema is accepted, every child sequence (alphabet a, b, foreign f; length <= 4) valid for D is valid for B."""
+    out = []
+    st.case()
+    dflt = ('<xs:defaultOpenContent mode="%s"><xs:any namespace="##other" processContents="lax"/></xs:defaultOpenContent>'
+            % default) if default else ''
+    text = (cm.HEAD + dflt + cm.GLOBALS + '<xs:complexType name="B">%s%s</xs:complexType><xs:complexType name="D">'
+            '<xs:complexContent><xs:restriction base="t:B">%s%s</xs:restriction></xs:complexContent></xs:complexType>'
+            '<xs:element name="r0" type="t:B"/><xs:element name="r1" type="t:D"/></xs:schema>'
+            % (_oc(boc), cm.type_body(b, [], 'gb_'), _oc(doc_), cm.type_body(d, [], 'gd_')))
+    try:
+        s = xmlschema.XMLSchema11(text)
+    except xmlschema.XMLSchemaException:
+        st.cls('open_content_restriction_rejected')
+        return out
+    st.cls('open_content_restriction_accepted')
+    st.nt(('oc', default, boc, doc_, cm.show(b), cm.show(d)))
+    for w in cm.words('abf', 4):
+        if s.is_valid(cm.doc(1, w)) and not s.is_valid(cm.doc(0, w)):
+            out.append({'kind': 'restriction_widens_open_content',
+                        'input': {'ver': '11', 'default': default, 'base_oc': boc, 'derived_oc': doc_, 'base': b, 'derived': d,
+                                  'word': w},
+                        'expected': 'schema rejected, or every child sequence valid for the derived type valid for the base',
+                        'observed': 'accepted; %r is valid for the derived type and invalid for the base' % w,
+                        'classes': [], 'key': 'oc|%s|%s|%s|%s|%s' % (default, boc, doc_, cm.show(b), cm.show(d))})
+            break
+    return out
+
+
+OC_MODELS = [(('seq', [('e', 'a', 1, 1), ('e', 'b', 0, 1)], 1, 1), ('seq', [('e', 'a', 1, 1)], 1, 1)),
+             (('seq', [('e', 'a', 0, None)], 1, 1), ('seq', [('e', 'a', 0, 2)], 1, 1)),
+             (('cho', [('e', 'a', 1, 1), ('e', 'b', 1, 1)], 1, 2), ('cho', [('e', 'a', 1, 1), ('e', 'b', 1, 1)], 1, 1))]
+
+
 # ------------------------------------------------------------------------------------ (3) attributes
 
 ATTR_POOL = [('', 'a'), ('', 'b'), ('urn:t', 'g'), ('urn:o', 'x'), ('', 'zz')]
@@ -335,6 +381,8 @@ def shards(tier, seed):
         for k in range(2):
             out.append(('compositor', ver, k, tier, seed))
         out.append(('attrfixed', ver, tier, seed))
+        if ver == '11':
+            out.append(('opencontent', ver, tier, seed))
         out.append(('facets', ver, tier, seed))
         out.append(('attrs', ver, tier, seed))
         out.append(('redefine', ver, tier, seed))
@@ -361,6 +409,15 @@ def run_shard(desc):
                     for r in judge_content(ver, b, d, st, False, op):
                         core.report(st, PROPERTY, r)
         st.sample({'ver': ver, 'bases from': 'small scope, depth 2', 'example': cm.show(pool[len(pool) // 3])})
+        return st
+    if desc[0] == 'opencontent':
+        for default in (None, 'interleave', 'suffix'):
+            for boc in (None, 'none', 'suffix', 'interleave'):
+                for doc_ in (None, 'none', 'suffix', 'interleave'):
+                    for b, d in OC_MODELS:
+                        for r in judge_open_content(default, boc, doc_, b, d, st):
+                            core.report(st, PROPERTY, r)
+        st.sample({'open content': '3 schema defaults x 4 base x 4 derived open-content settings x 3 model pairs, words <= 4 over a, b, foreign'})
         return st
     if desc[0] == 'attrfixed':
         # exhaustive: ONE attribute re-declared in the restriction, every (type, fixed) x (type, fixed) pair
@@ -470,6 +527,9 @@ def replay(record):
     if k.startswith('restriction_widens_content'):
         return judge_content(inp['ver'], cm.tolist(inp['base']), cm.tolist(inp['derived']), st, inp.get('redefine', False),
                              inp.get('op', '?'))
+    if k == 'restriction_widens_open_content':
+        return judge_open_content(inp['default'], inp['base_oc'], inp['derived_oc'], cm.tolist(inp['base']),
+                                  cm.tolist(inp['derived']), st)
     if k == 'restriction_widens_facets':
         return judge_facets(inp['ver'], inp['base'], inp['f1'], inp['f2'], st)
     b, d = inp['base'], inp['derived']
